@@ -665,23 +665,51 @@ def o_no_hang(ctx):
                     % ((cells[0].split(" | ")[0],) * 4 + cells))
     script = ("import sys, json\nsys.path.insert(0, %r)\nfrom gherkin.stream.gherkin_events import GherkinEvents\n"
               "docs = json.load(sys.stdin)\n"
+              "import time\n"
               "for i, d in enumerate(docs):\n"
-              "    print(i, flush=True)\n"
+              "    print(i, time.time(), flush=True)\n"
               "    ge = GherkinEvents(GherkinEvents.Options(print_source=False, print_ast=True, print_pickles=True))\n"
               "    list(ge.enum({'source': {'uri': 'u', 'data': d, 'mediaType': 'text/x.cucumber.gherkin+plain'}}))\n"
               "print('done', flush=True)\n") % PYDIR
-    limit = 60 + 0.02 * len(srcs)
+    import time as _time
     c = Corr("no-hang")
     c.exhaustive = False
-    try:
-        p = subprocess.run([_sys.executable, "-c", script], input=json.dumps(srcs), capture_output=True, text=True, timeout=limit)
-        out = p.stdout.split()
-        hung = None if (out and out[-1] == "done") else (int(out[-1]) if out and out[-1].isdigit() else 0)
-        err = p.stderr[-300:] if hung is not None else ""
-    except subprocess.TimeoutExpired as e:
-        out = (e.stdout.decode() if isinstance(e.stdout, bytes) else (e.stdout or "")).split()
-        hung = int(out[-1]) if out and out[-1].isdigit() else 0
-        err = "no result within %d s" % limit
+
+    def run_batch(idxs, limit):
+        """-> (index of the document that did not finish or None, seconds per finished document or None if none finished)"""
+        try:
+            p = subprocess.run([_sys.executable, "-c", script], input=json.dumps([srcs[k] for k in idxs]), capture_output=True, text=True, timeout=limit)
+            out = p.stdout.split()
+        except subprocess.TimeoutExpired as e:
+            out = (e.stdout.decode() if isinstance(e.stdout, bytes) else (e.stdout or "")).split()
+        if out and out[-1] == "done":
+            return None, None
+        marks = [(int(out[k]), float(out[k + 1])) for k in range(0, len(out) - 1, 2) if out[k].isdigit()]
+        if not marks:
+            return 0, None
+        stuck = marks[-1][0]
+        per = (marks[-1][1] - marks[0][1]) / stuck if stuck > 0 else None
+        return stuck, per
+
+    # a time limit alone would make a slow or busy machine look like a hang: a document that does not finish within the batch's
+    # limit is run again on its own, with a limit scaled by what the other documents took on this machine just now
+    hung, err = None, ""
+    todo = list(range(len(srcs)))
+    limit = 60 + 0.02 * len(srcs)
+    for _round in range(6):
+        stuck, per = run_batch(todo, limit)
+        if stuck is None:
+            break
+        suspect = todo[stuck]
+        alone_limit = min(300.0, max(90.0, 4000 * (per if per is not None else 0.05)))
+        s2, _ = run_batch([suspect], alone_limit)
+        if s2 is not None:
+            hung, err = suspect, "no result within %d s on its own (other documents: %s s each)" % (alone_limit, "%.3f" % per if per is not None else "?")
+            break
+        todo = todo[stuck + 1:]
+        limit = limit * 3
+        if not todo:
+            break
     c.evaluations = len(srcs)
     c.nontrivial = set(srcs if hung is None else srcs[:hung])
     c.count("adversarial-lines", len(srcs))
